@@ -24,10 +24,16 @@ VARIANTS = {
     # VP: libabt compiled by clang with a callback at every plain load/store; the simulator
     # turns some of them into scheduling points (sim_plain_access)
     "VP": ([], [], []),
+    # VG: libabt compiled with gcov counters (tools/coverage.py: which library lines the
+    # workloads reach); never part of a check
+    "VG": ([], [], []),
 }
 LIB_ONLY = {
     "VP": ("clang", ["-fsanitize-coverage=trace-pc-guard,trace-loads,trace-stores", "-Wno-unknown-warning-option"]),
+    "VG": ("gcc", ["-O1", "--coverage", "-fprofile-update=single"]),
 }
+HARNESS_ONLY = {"VG": ["-DSIM_GCOV"]}
+LINK_ONLY = {"VG": ["--coverage"]}
 
 
 def die(msg):
@@ -125,6 +131,8 @@ def main():
         return
     t0 = time.time()
     tmp = bdir + ".tmp%d" % os.getpid()
+    if a.variant == "VG":
+        tmp = bdir  # the objects record the absolute path of their .gcda files
     shutil.rmtree(tmp, ignore_errors=True)
     os.makedirs(tmp)
     incdir = inc
@@ -151,7 +159,7 @@ def main():
         cmd = [libcc] + libflags + ["-I" + incdir, "-I" + os.path.join(repo, "src"), "-c", os.path.join(repo, "src", f), "-o", o]
         jobs.append((cmd, o, True))
     hflags = ["-O1", "-g", "-Wall", "-Wno-unused-function", "-DHAVE_CONFIG_H", "-DABT_VERIF_SIM", "-I" + incdir, "-I" + os.path.join(VERIF, "sim"),
-              "-I" + os.path.join(VERIF, "workloads")] + extra
+              "-I" + os.path.join(VERIF, "workloads")] + extra + HARNESS_ONLY.get(a.variant, [])
     hobjs = []
     for d in ("sim", "workloads"):
         dd = os.path.join(VERIF, d)
@@ -178,7 +186,7 @@ def main():
     lib = os.path.join(tmp, "libabt_sim.a")
     if not run(["ar", "rcs", lib] + objs, log):
         die("ar failed\n" + "\n".join(log))
-    link = ["gcc", "-no-pie", "-o", os.path.join(tmp, "abtsim")] + hobjs + [lib, "-lpthread", "-lm", "-lrt"] + extra
+    link = ["gcc", "-no-pie", "-o", os.path.join(tmp, "abtsim")] + hobjs + [lib, "-lpthread", "-lm", "-lrt"] + extra + LINK_ONLY.get(a.variant, [])
     if not run(link, log):
         sys.stderr.write("\n".join(log)[-6000:] + "\n")
         shutil.rmtree(tmp, ignore_errors=True)
@@ -186,7 +194,8 @@ def main():
     for o in objs + hobjs:
         os.unlink(o)
     try:
-        os.rename(tmp, bdir)
+        if tmp != bdir:
+            os.rename(tmp, bdir)
     except OSError:
         shutil.rmtree(tmp, ignore_errors=True)  # a concurrent build won the race
     # keep the cache small
